@@ -38,6 +38,11 @@ def configs(tier, seed=0):
                     continue
                 for N in [1, 2]:
                     out.append({'key': 'gmrf/%s/o%d/n%d/N%d' % (bc, order, n, N), 'kind': 'gmrf', 'family': 'GMRF', 'bc': bc, 'order': order, 'n': n, 'phys': 1, 'param': 'vector', 'N': N, 'box': True})
+    # a Gaussian whose spread is RE-ASSIGNED after it has been sampled once (diagonal first, dense afterwards, and the other way round):
+    # the second draw must follow the object's density at that time
+    for form in ['cov', 'prec', 'sqrtcov', 'sqrtprec']:
+        for first in ['diag', 'dense']:
+            out.append({'key': 'gauss-reassign/%s/%s-first' % (form, first), 'kind': 'gauss-reassign', 'form': form, 'first': first, 'dim': 2})
     # periodic GMRF: complex spectral construction (needs the engine's SymComplex scalars)
     for order in [1, 2]:
         for n in [4, 5]:
@@ -125,6 +130,31 @@ def run(cfg, c):
                 lhs = rt * ((Preg.astype(object) @ (cols[k] - mean)) if not conc else Preg @ (cols[k] - mean))
                 rhs = (f.Dref.T.astype(object) @ E[:, k]) if not conc else f.Dref.T @ E[:, k]
                 c.prove_close('(P + sqrt(eps) I) sqrt(prec) (s - mean) = D^T xi (draw %d)' % k, lhs, rhs, tol=1e-5, info=fk(cfg, 'affine'))
+        return
+    if kind == 'gauss-reassign':
+        d, form = cfg['dim'], cfg['form']
+        m = cm.boxed(c, c.reals('m', d), 8)
+        S = cm.spd_matrix(d, 2).astype(float)
+        dense = {'cov': S, 'prec': S, 'sqrtcov': np.linalg.cholesky(S).T, 'sqrtprec': np.linalg.cholesky(S).T}[form]
+        diag = np.array([1.0, 4.0])
+        a, b = (diag, dense) if cfg['first'] == 'diag' else (dense, diag)
+        x = cuqi.distribution.Gaussian(m, **{form: a})
+        x.sample(1)
+        setattr(x, form, b)
+        n0 = len(c.draws)
+        s2 = x.sample(1)
+        if not wrap_checks(c, cfg, x, s2, 1, d):
+            return
+        E = cm.boxed(c, np.asarray(c.draws[n0]['value'], dtype=dt).reshape(d, -1), 8)
+        R = x.sqrtprec
+        Rd = np.asarray(R.toarray() if hasattr(R, 'toarray') else R, dtype=float)
+        col = np.asarray(s2, dtype=dt).reshape(-1)
+        c.prove_close('after re-assigning %s: sqrtprec (s - mean) = e for the CURRENT sqrtprec' % form, (Rd.astype(object) @ (col - m)) if not conc else Rd @ (col - m), E[:, 0], tol=1e-7,
+                      info=fk(cfg, 'affine'))
+        # and the current sqrtprec is the one of the assigned matrix (the density in force)
+        P = {'cov': lambda M: np.linalg.inv(M), 'prec': lambda M: M, 'sqrtcov': lambda M: np.linalg.inv(M @ M.T) if M.ndim == 2 else np.diag(1 / M ** 2),
+             'sqrtprec': lambda M: M.T @ M if M.ndim == 2 else np.diag(M ** 2)}[form](b if (np.ndim(b) == 2 or form in ('sqrtcov', 'sqrtprec')) else np.diag(b))
+        c.prove('current sqrtprec^T sqrtprec = precision of the assigned matrix', bool(np.allclose(Rd.T @ Rd, P, atol=1e-9)), info=fk(cfg, 'precision'))
         return
     if kind == 'gmrf-periodic':
         f = cm.build(c, cfg)
